@@ -568,6 +568,49 @@ def f50():
     return errs1 == ["items[1].need"] and raised == "items[0]", "validate() reaches configurations held in lists: %r %r" % (errs1, raised)
 
 
+
+@witness("F54", ["C03", "C15"])
+def f54():
+    from cincoconfig import Schema, ListField, SecureField, IntField, ValidationError
+    d = _tmp()
+    item = Schema()
+    item.tok = SecureField(method="xor")
+    item.n = IntField()
+    s = Schema()
+    s.items = ListField(item)
+    res = []
+    for route in range(5):
+        a = s(key_filename=os.path.join(d, "ka%d" % route))
+        b = s(key_filename=os.path.join(d, "kb%d" % route))
+        a.items = [{"tok": "a-item-secret"}]
+        b.items = [{"tok": "b-own"}]
+        if route == 0:
+            b.items = a.items
+        elif route == 1:
+            b.items = a.items.copy()
+        elif route == 2:
+            b.items = b.items + a.items
+        elif route == 3:
+            b.items.extend(a.items)
+        else:
+            b.items += a.items
+        it = b.items[-1]
+        out = b.dumps("json")
+        c = s(key_filename=os.path.join(d, "kb%d" % route))
+        try:
+            c.loads(out, "json")
+            loaded = c.items[-1].tok
+        except Exception as e:  # noqa
+            loaded = type(e).__name__
+        try:
+            it.n = "bad"
+            path = None
+        except ValidationError as e:
+            path = e.ref_path
+        res.append((it._parent is b, os.path.exists(os.path.join(d, "ka%d" % route)), loaded, path == "items[%d].n" % (len(b.items) - 1)))
+    return all(r == (True, False, "a-item-secret", True) for r in res), "items taken over from another configuration's list: %r" % (res,)
+
+
 # ---------------------------------------------------------------------------------------------
 # probes of OPEN findings that no correspondence stream reaches (operations outside the model's
 # alphabet).  A probe returns (still_reproduces, detail); it never raises an alarm by itself.
